@@ -18,7 +18,7 @@ def run(ctx):
     cargo_build(ctx)
     # 2. spec -> impl: edge cover of the generation config
     beh, gstats = gen_edge_cover(ctx, "UdpSwarm_Gen", "UdpSwarm_Gen.cfg", U.arg_filter,
-                                 U.to_exec_op, {"max_resp": 2, "mode": "off"})
+                                 U.to_exec_op, {"max_resp": 2, "mode": "off", "peer_clients": False, "dumps": True})
     t1 = execute(ctx, "udp_exec", beh, "edgecover")
     acc1, f1 = validate_and_report(ctx, "UdpRef_Trace", "UdpRef_Trace.cfg", t1, "edgecover",
                                    U.classify, beh)
